@@ -11,6 +11,7 @@
 #include <poll.h>
 #include <signal.h>
 #include <sys/wait.h>
+#include <sys/resource.h>
 #include <fstream>
 #include <sstream>
 #include <iostream>
@@ -153,7 +154,13 @@ static std::string run_once(const std::string& line, int timeout_ms) {
     if (pipe(fds) < 0) return "PIPEFAIL";
     fflush(stdout);
     pid_t pid = fork();
-    if (pid == 0) { close(fds[0]); child_main(line, fds[1]); _exit(0); }
+    if (pid == 0) {
+        close(fds[0]);
+        // a runaway case is stopped by CPU time (independent of machine load), not by wall clock
+        struct rlimit rl = {10, 12};
+        setrlimit(RLIMIT_CPU, &rl);
+        child_main(line, fds[1]); _exit(0);
+    }
     close(fds[1]);
     std::string out; char buf[65536];
     bool hang = false;
@@ -170,6 +177,7 @@ static std::string run_once(const std::string& line, int timeout_ms) {
     int status = 0; waitpid(pid, &status, 0);
     while (!out.empty() && (out.back() == '\n' || out.back() == '\r')) out.pop_back();
     if (hang) return "HANG " + out;
+    if (WIFSIGNALED(status) && (WTERMSIG(status) == SIGXCPU || WTERMSIG(status) == SIGKILL)) return "HANG(cpu) " + out;
     if (WIFSIGNALED(status)) return "CRASH(sig" + std::to_string(WTERMSIG(status)) + ") " + out;
     if (out.empty()) return "NOOUTPUT(exit" + std::to_string(WEXITSTATUS(status)) + ")";
     return out;
@@ -180,7 +188,9 @@ static std::string run_once(const std::string& line, int timeout_ms) {
 int main(int argc, char** argv) {
     if (argc < 2) { fprintf(stderr, "usage: %s <casefile>\n", argv[0]); return 2; }
     bool twice = !(getenv("E2_ONCE") && getenv("E2_ONCE")[0] == '1');
-    int timeout_ms = getenv("E2_TIMEOUT_MS") ? atoi(getenv("E2_TIMEOUT_MS")) : 10000;
+    // wall-clock limit per run: generous, because the machine may be heavily loaded; genuine
+    // runaways are caught by the 10 s CPU limit of the child
+    int timeout_ms = getenv("E2_TIMEOUT_MS") ? atoi(getenv("E2_TIMEOUT_MS")) : 300000;
     std::ifstream in(argv[1]);
     std::string line;
     while (std::getline(in, line)) {
